@@ -194,12 +194,10 @@ fn apply_operator(left: &Value, op: &str, right: &Value) -> Result<Value> {
         }
     };
 
-    // Return integer if both operands were integers and result is whole number
-    if is_integer_value(left) && is_integer_value(right) && result.fract() == 0.0 {
-        Ok(Value::Integer(result as i64))
-    } else {
-        Ok(Value::Number(result))
-    }
+    // Two integers whose exact result is an integer in range were handled above; what is left
+    // (an inexact quotient, an overflow) is a number: an f64 that happens to be whole, such as
+    // i64::MIN / -10 rounded to 2^53 precision, is not the exact integer result
+    Ok(Value::Number(result))
 }
 
 /// Convert Value to f64 for arithmetic
@@ -216,11 +214,6 @@ fn value_to_number(value: &Value) -> Result<f64> {
             message: format!("Cannot convert {:?} to number", value),
         }),
     }
-}
-
-/// Check if Value represents an integer
-fn is_integer_value(value: &Value) -> bool {
-    matches!(value, Value::Integer(_))
 }
 
 #[cfg(test)]
